@@ -21,12 +21,14 @@ class Result:
 
 
 def check_valid(hyps, goal, *, rlimit: int = None, use_cvc5: bool = True, tactic: str = None,
-                cvc5_timeout_s: int = 20) -> Result:
+                cvc5_timeout_s: int = 20, seed: int = None) -> Result:
     """Validity of  /\\ hyps -> goal.   status: 'unsat' (proved) | 'sat' (counter-model) | 'unknown'."""
     rl = rlimit or RLIMIT
     t0 = time.time()
     s = z3.Solver() if tactic is None else z3.Tactic(tactic).solver()
     s.set("rlimit", rl)
+    if seed is not None:
+        s.set("random_seed", seed)
     for h in hyps:
         s.add(h)
     s.add(z3.Not(goal))
